@@ -158,17 +158,22 @@ func verifyPageReachable(p *common.Page, hwm common.Pgid, stack []common.Pgid, r
 	}
 
 	// Ensure each page is only referenced once.
+	isFreed, freedID := false, p.Id()
 	for i := common.Pgid(0); i <= common.Pgid(p.Overflow()); i++ {
 		var id = p.Id() + i
 		if _, ok := reachable[id]; ok {
 			ch <- fmt.Errorf("page %d: multiple references (stack: %v)", int(id), stack)
 		}
 		reachable[id] = p
+		// An overflow page of a reachable page must not be free either.
+		if freed[id] && !isFreed {
+			isFreed, freedID = true, id
+		}
 	}
 
 	// We should only encounter un-freed leaf and branch pages.
-	if freed[p.Id()] {
-		ch <- fmt.Errorf("page %d: reachable freed", int(p.Id()))
+	if isFreed {
+		ch <- fmt.Errorf("page %d: reachable freed", int(freedID))
 	} else if !p.IsBranchPage() && !p.IsLeafPage() {
 		ch <- fmt.Errorf("page %d: invalid type: %s (stack: %v)", int(p.Id()), p.Typ(), stack)
 	}
